@@ -202,6 +202,15 @@ def gen_faults(rng, p):
     return faults
 
 
+def _finish(scen, rng):
+    # how the user wrote the callables (the driver passes c=, inc=, silent= by keyword): plain functions, keyword-only
+    # parameters, functools.partial objects, callable instances, **kwargs wrappers
+    scen['callable_form'] = rng.choice(['plain', 'plain', 'plain', 'kwonly', 'partial', 'object', 'kwargs'])
+    # settings changed (attribute assignment on the Analysis object) between the first and the second analysis
+    scen['repeat_knobs'] = rng.choice([None, {'absTOL': 1e-3}, {'absTOL': 1e-2}, {'minInc': 0.5}, {'maxNumIter': 2}])
+    return scen
+
+
 def generate(seed, batch):
     rng = rng_for(seed, 'C09', batch)
     scen = {'prop': PROP, 'seed': seed, 'batch': batch}
@@ -254,7 +263,7 @@ def generate(seed, batch):
         scen['repeat'] = rng.random() < 0.3
     else:
         raise ValueError(batch)
-    return scen
+    return _finish(scen, rng)
 
 
 # --------------------------------------------------------------------------- shrinking
@@ -864,6 +873,35 @@ def outcome_string(mon):
     return out
 
 
+def _as_form(f, form, takes_c, takes_inc):
+    """the same callable written the way a user might have written it"""
+    import functools
+    if form == 'kwonly':
+        if takes_c:
+            def g(c=None, *, inc=1., silent=True):
+                return f(c=c, inc=inc, silent=silent)
+        elif takes_inc:
+            def g(*, inc=1., silent=True):
+                return f(inc=inc, silent=silent)
+        else:
+            def g(*, silent=True):
+                return f(silent=silent)
+        return g
+    if form == 'partial':
+        # a keyword bound by partial makes it (and what follows it) keyword-only for introspection; it can still be overridden
+        return functools.partial(f, silent=True)
+    if form == 'object':
+        class _Callable(object):
+            def __call__(self, *a, **kw):
+                return f(*a, **kw)
+        return _Callable()
+    if form == 'kwargs':
+        def g(*a, **kw):
+            return f(*a, **kw)
+        return g
+    return f
+
+
 def execute(scen):
     import numpy as np
     import compmech.analysis.newton_raphson as nr
@@ -877,12 +915,15 @@ def execute(scen):
     world = scen['world']
     obj = None
     lin = None
+    form = scen.get('callable_form', 'plain')
     if world == 'S':
         fext, k0, fint, kT = build_world_S(scen, mon, res)
-        an = Analysis(fext, k0, fint, kT)
+        an = Analysis(_as_form(fext, form, False, True), _as_form(k0, form, False, False), _as_form(fint, form, True, True),
+                      _as_form(kT, form, True, True))
     elif world == 'P':
         fext, k0, fint, kT, lin = build_world_P(scen, mon, res)
-        an = Analysis(fext, k0, fint, kT)
+        an = Analysis(_as_form(fext, form, False, True), _as_form(k0, form, False, False), _as_form(fint, form, True, True),
+                      _as_form(kT, form, True, True))
     elif world == 'R':
         obj = build_world_R(scen, mon, res)
         an = obj.analysis
@@ -912,6 +953,18 @@ def execute(scen):
                     held_copy = ([float(x) for x in held_incs], [sha_bytes(np.ascontiguousarray(x).tobytes()) for x in held_cs])
                     mon.begin_run()
                     bump(res['probes'], 'second_run_on_same_analysis_object')
+                    rk = scen.get('repeat_knobs')
+                    if rk and world in ('P', 'R'):
+                        # the user changes a setting on the Analysis object between the two analyses (plain attribute
+                        # assignment): the second analysis is judged by the new settings
+                        newk = dict(mon.knobs)
+                        for kk_, fac in rk.items():
+                            newk[kk_] = (max(1, int(newk[kk_] * fac)) if kk_ == 'maxNumIter' else newk[kk_] * fac)
+                            if kk_ == 'maxNumIter':
+                                newk[kk_] = max(2, newk[kk_] // 2)
+                            setattr(an, kk_, newk[kk_])
+                        mon.knobs = newk
+                        bump(res['probes'], 'settings_changed_before_second_run_' + '+'.join(sorted(rk)))
                     if world == 'R' and hasattr(obj, 'static'):
                         obj.static(NLgeom=True, silent=True)
                     else:
